@@ -1,5 +1,108 @@
-"""Effect summaries of in-crate callees that take `&mut` arguments (filled in later)."""
+"""Effect summaries of in-crate callees that take `&mut` arguments.
+
+For a callee f(.., &mut x, ..) -> Result<..> the summary is computed from f's own outcome expansion
+(FnAnalysis.ret_leaves): the final value of *x on the Ok outcomes (must be the same closed term on all of them,
+possibly per ELF class) and on the Err outcomes.  At a call site the pointee becomes
+    okelse(R, ok_value[args], err_value[args] | fresh)
+where R is the (congruent) call term, so that a later `?` on R selects the right value."""
+from .terms import T, Term, pp
+
+_cache = {}
+
+
+def _class_param(lf):
+    for i, ty in enumerate(lf.get("sig", {}).get("inputs", [])):
+        if ty.endswith("file::Class"):
+            return i + 1
+    return None
+
+
+def _outcome_values(prog, lf, assume, mut_params):
+    """returns {param: (ok_value|None, err_value|None)} in the callee's term space; None = not unique / not closed"""
+    an = prog.analysis(lf, assume)
+    if an is None:
+        return None
+    leaves = an.ret_leaves()
+    if not leaves:
+        return None
+    res = {}
+    for i in mut_params:
+        lv = (("M", T.param(i)), ())
+        oks, errs, other = set(), set(), False
+        for t, st in leaves:
+            v = an.read(st, lv)
+            if t.op == "agg" and t.args[3] in ("Ok", "Some"):
+                oks.add(v)
+            elif t.op == "agg" and t.args[3] in ("Err", "None"):
+                errs.add(v)
+            else:
+                other = True
+        okv = next(iter(oks)) if len(oks) == 1 and not other and prog._closed(next(iter(oks))) else None
+        errv = next(iter(errs)) if len(errs) == 1 and not other and prog._closed(next(iter(errs))) else None
+        res[i] = (okv, errv, bool(oks))
+    return res
+
+
+def summary(prog, lf, mut_params):
+    key = (lf["id"], tuple(mut_params))
+    if key in _cache and _cache[key][0] is prog:
+        return _cache[key][1]
+    base = _outcome_values(prog, lf, (), mut_params)
+    out = {"base": base, "by_class": None, "class_param": None}
+    cp = _class_param(lf)
+    if base is not None and cp is not None and any(v[0] is None for v in base.values()):
+        per = {}
+        for cname in ("ELF32", "ELF64"):
+            per[cname] = _outcome_values(prog, lf, (("var", T.param(cp), cname),), mut_params)
+        if all(per.values()):
+            out["by_class"] = per
+            out["class_param"] = cp
+    _cache[key] = (prog, out)
+    return out
 
 
 def apply_effect_summary(prog, an, st, site, lf, callee, generics, args, arg_lvs, mut_idx, t):
-    return None
+    dty = t["dest"]["ty"]
+    mut_params = [i + 1 for i in mut_idx]
+    if an.depth > 6:
+        return None
+    s = summary(prog, lf, mut_params)
+    if s["base"] is None:
+        return None
+    # call term: &mut arguments are represented by the value they point to at the call
+    before = {i: an.read(st, arg_lvs[i]) for i in mut_idx}
+    cargs = []
+    for i, a in enumerate(args):
+        if i in mut_idx:
+            cargs.append(T.refval(before[i]))
+        else:
+            cargs.append(prog._stabilise(an, st, a))
+    R = T.call(lf["qual"], generics, cargs)
+    sub_args = list(cargs)
+    for i in mut_idx:
+        okv, errv, has_ok = s["base"][i + 1]
+        new_ok = None
+        if okv is not None:
+            new_ok = prog.subst(an, st, okv, sub_args)
+        elif s["by_class"] is not None:
+            cls = args[s["class_param"] - 1]
+            vals = {}
+            for cname in ("ELF32", "ELF64"):
+                o = s["by_class"][cname][i + 1][0]
+                vals[cname] = prog.subst(an, st, o, sub_args) if o is not None else None
+            if all(v is not None for v in vals.values()):
+                if cls.op == "agg" and cls.args[3] in vals:
+                    new_ok = vals[cls.args[3]]
+                elif vals["ELF32"] is vals["ELF64"]:
+                    new_ok = vals["ELF32"]
+                else:
+                    new_ok = Term("classsel", cls, vals["ELF32"], vals["ELF64"])
+        new_err = prog.subst(an, st, errv, sub_args) if errv is not None else None
+        if new_ok is None and has_ok:
+            new_ok = T.fresh(site, "arg%d:ok" % i)
+        if new_ok is None:
+            new_ok = T.fresh(site, "arg%d:ok" % i)
+        if new_err is None:
+            new_err = T.fresh(site, "arg%d:err" % i)
+        an.write(st, arg_lvs[i], Term("okelse", R, new_ok, new_err))
+    return R
